@@ -26,6 +26,12 @@ impl AckId {
         }
     }
 
+    /// The numeric value, for the verification hooks.
+    #[cfg(deltio_verif)]
+    pub fn verif_value(&self) -> u64 {
+        self.value
+    }
+
     /// Attempts to parse the given value into an `AckId`.
     pub fn parse(raw_value: &str) -> Result<Self, AckIdParseError> {
         raw_value
